@@ -53,7 +53,8 @@ void clear_zone_cache();
 
 std::string strip_salt(const std::string& s, const std::string& salt);
 std::string fixed_abbr(int64_t offset);      // independent re-implementation of the documented abbreviation
-std::string fixed_name(int64_t offset);      // "Fixed/UTC+hh:mm:ss" / "UTC"
+std::string fixed_name(int64_t offset);
+bool builtin_name(const std::string& name, int64_t* offset);  // UTC, UTC0, Fixed/UTC+hh:mm:ss within 24h (from the documentation)      // "Fixed/UTC+hh:mm:ss" / "UTC"
 
 }  // namespace sim
 #endif
